@@ -57,6 +57,11 @@ def singleton_phens(rng):
             return phens
 
 
+def _nfc(name):
+    import unicodedata
+    return unicodedata.normalize('NFC', name)
+
+
 def exhaustive_cases():
     """all sequences of length <= 4 over local events {0,1,2} and remote upd/halt/comp with same/other id."""
     P = gp.pattern
@@ -92,6 +97,24 @@ def exhaustive_cases():
                     else:
                         ops.append(a)
                 yield Case(rphens, cache, ops, 'exh-raise')
+    # the peer spells the pattern's name with other code points (precomposed here, combining there): whichever pattern the
+    # decider takes such a record to belong to, no pattern ends up with two runs
+    nfc, nfd = 'caf\u00e9', 'cafe\u0301'
+    for mine, theirs in ((nfc, nfd), (nfd, nfc)):
+        uphens = [('ph', [P(mine, ['0000', '0000', '0000'], [['eq:0'], ['eq:1'], ['eq:2']], singleton=True)])]
+        atoms_u = ['L0', 'L1', f'rem U f0|ph|{theirs}|2|g0=y:0:s:0;g1=z:5:s:1', f'rem U f1|ph|{theirs}|1|g0=x:0:s:0',
+                   f'rem U f2|ph|{mine}|1|g0=v:0:s:0', f'rem C f0|ph|{theirs}|3|g0=y:0:s:0']
+        for n in (1, 2, 3):
+            for first in atoms_u:
+                for seq in itertools.product(atoms_u, repeat=n - 1):
+                    ops, t = [], 0
+                    for a in (first,) + seq:
+                        if a[0] == 'L':
+                            ops.append(f'ev e{t} {t} s {a[1]}')
+                            t += 1
+                        else:
+                            ops.append(a)
+                    yield Case(uphens, 1000, ops, 'exh-spelling')
 
 
 def per_case(case, rd, outs, r):
@@ -132,6 +155,9 @@ def per_case(case, rd, outs, r):
                 return
         for ph, p in singles:
             n = sum(1 for x in tab if x[1] == ph and x[2] == p['name'])
+            # (a run kept under another spelling of the name is a run the decider took to be of this pattern)
+            if sum(1 for x in tab if x[1] == ph and _nfc(x[2]) == _nfc(p['name'])) > 1:
+                n = sum(1 for x in tab if x[1] == ph and _nfc(x[2]) == _nfc(p['name']))
             if n > 1:
                 r.violations.append(Violation('two-active-singleton-runs',
                                               f"{n} active runs of singleton pattern {ph}/{p['name']} after {op[:70]}",
@@ -195,7 +221,7 @@ def run(ctx: Ctx) -> Result:
             return
         ex = list(exhaustive_cases())
         if not ctx.thorough:
-            ex = [c for c in ex if len(c.ops) <= 3] + ctx.rng.sample([c for c in ex if len(c.ops) == 4], 600)
+            ex = [c for c in ex if len(c.ops) <= 3 or c.tag == 'exh-spelling'] + ctx.rng.sample([c for c in ex if len(c.ops) == 4 and c.tag != 'exh-spelling'], 600)
         for c in ex:
             res.count('exhaustive')
             yield c
